@@ -10,8 +10,21 @@
 
   Quantifiers: every snapshot value of the model type — any number of frames, table entries, children, watches,
   attributes; any code points in any text; any integers — and every auth configuration and operation sequence.
-  The two recorded findings are exactly the two named hypotheses `textOk`, `intsFit`; each has a `decide`d witness
-  showing the snapshot IS dropped without it.
+  HYPOTHESES of the round-trip theorems — three, all named:
+    * `Collectable`     (`s.collectable`) what the snapshot is assumed to be BY CONSTRUCTION in the collector, spelled
+                        out by `c08_collectable_meaning`: a 128-bit id, time stamp and duration in uint64, uint32 line
+                        and column numbers, every watch with result XOR error and one of the agent's sources,
+                        attribute / resource values that went through BoundedAttributes.  Proved from the source as far
+                        as the source decides it: the duration (`c08_duration_never_negative`, `c08_completed_in_range`,
+                        from the translated `EventSnapshot.complete` — a clock stepping back used to give a negative
+                        duration and a dropped snapshot, fix a7b49ff), the watch sources (`c08_sources_known`,
+                        `c08_sources_roundtrip`).  The rest (128-bit ids from `getrandbits(128)`, line numbers of real
+                        frames, `time_ns()` ≥ 0, `eval_watch` producing result XOR error) is ASSUMED here and exercised
+                        by the correspondence run, which reports any collected snapshot outside `collectable`.
+    * `WellFormedText`  (`s.textOk`)  recorded finding C08/lone-surrogate-dropped is its complement.
+    * `IntsFitInt64`    (`s.intsFit`) recorded finding C08/attr-int-out-of-range-dropped is its complement.
+  Each of the two findings has a `decide`d witness showing the snapshot IS dropped without the hypothesis.
+  "Survives serialisation" has no theorem: the protobuf runtime is trusted for it (and exercised on every case).
 -/
 import DeepModel.Proofs.Wire
 
@@ -66,7 +79,7 @@ theorem c08_fieldmap_complete :
     faithful "EventSnapshot" EventSnapshotProps "Snapshot" "convert_snapshot" = true := by
   decide
 
-/-- the poll request is built from time stamp, current hash and the converted resource, whose conversion carries the
+/-- tripwire: the poll request is built from time stamp, current hash and the converted resource, whose conversion carries the
     attributes and the dropped count -/
 theorem c08_poll_request_fields :
     pollRequestFields.map (·.1) = ["ts_nanos", "current_hash", "resource"] ∧
@@ -75,7 +88,7 @@ theorem c08_poll_request_fields :
       some [("dropped_attributes_count", "dropped"), ("attributes", "attributes")] := by
   decide
 
-/-- every watch source the agent writes is a name of the protobuf enum (so `WatchSource.Value` cannot raise) -/
+/-- tripwire: every watch source the agent writes is a name of the protobuf enum (so `WatchSource.Value` cannot raise) -/
 theorem c08_sources_known :
     watchSources.all (fun n => (watchSourceValue (Text.ofString n)).isSome) = true := by
   decide
@@ -87,32 +100,62 @@ theorem c08_sources_roundtrip :
     (watchSources.map (fun n => convertWatchSource (Text.ofString n))).Nodup := by
   decide
 
+/-! ### what `Collectable` demands, and the part of it the source decides -/
+
+/-- `s.collectable` spelled out -/
+theorem c08_collectable_meaning (s : EventSnapshot) :
+    s.collectable = true ↔
+      (s.id < 2 ^ 128 ∧ (0 ≤ s.ts_nanos ∧ s.ts_nanos < 2 ^ 64) ∧ (0 ≤ s.duration_nanos ∧ s.duration_nanos < 2 ^ 64) ∧
+       (0 ≤ s.tracepoint.line_no ∧ s.tracepoint.line_no < 2 ^ 32) ∧
+       (∀ f ∈ s.frames, f.inRange = true) ∧ (∀ w ∈ s.watches, w.wellFormed = true) ∧
+       (∀ kv ∈ s.attributes, kv.2.holdable = true) ∧ (∀ kv ∈ s.resource, kv.2.holdable = true)) := by
+  simp only [EventSnapshot.collectable, Bool.and_eq_true, decide_eq_true_eq, inU64, inU32, attrsAll,
+    List.all_eq_true]
+  constructor
+  · rintro ⟨⟨⟨⟨⟨⟨⟨h1, h2⟩, h3⟩, h4⟩, h5⟩, h6⟩, h7⟩, h8⟩
+    exact ⟨by simpa using h1, by simpa using h2, by simpa using h3, by simpa using h4, h5, h6, h7, h8⟩
+  · rintro ⟨h1, h2, h3, h4, h5, h6, h7, h8⟩
+    exact ⟨⟨⟨⟨⟨⟨⟨by simpa using h1, by simpa using h2⟩, by simpa using h3⟩, by simpa using h4⟩, h5⟩, h6⟩, h7⟩, h8⟩
+
+/-- the duration `EventSnapshot.complete` stores is never negative, whatever the two clock readings — also when the
+    wall clock stepped back between the hit and the completion -/
+theorem c08_duration_never_negative (now ts : Int) : 0 ≤ completeDuration now ts := by
+  unfold completeDuration
+  omega
+
+/-- …and fits the uint64 field whenever both readings are `time_ns()` values (0 ≤ t < 2^64) -/
+theorem c08_completed_in_range (now ts : Int) (hn : inU64 now = true) (ht : inU64 ts = true) :
+    inU64 (completeDuration now ts) = true := by
+  simp only [inU64, Bool.and_eq_true, decide_eq_true_eq] at hn ht ⊢
+  unfold completeDuration
+  omega
+
 /-! ### round trip -/
 
 /-- **whatever is sent is the snapshot**: if a message is produced at all, reading it back gives every field of the
     snapshot — id, tracepoint, time stamp, duration, every frame, every table entry with children and truncation
     flag, every watch with result or error and its source, attributes, resource, log message.  No hypothesis on text. -/
-theorem c08_sent_is_faithful (s : EventSnapshot) (hc : s.collectable = true) (m : PSnapshot)
+theorem c08_sent_is_faithful (s : EventSnapshot) (Collectable : s.collectable = true) (m : PSnapshot)
     (h : convertSnapshot s = some m) : projectSnapshot m = s := by
   unfold convertSnapshot at h
   simp only at h
   split at h
-  · cases h; exact project_snapshot hc
+  · cases h; exact project_snapshot Collectable
   · cases h
 
 /-- **round trip** — a collectable snapshot with well-formed text is converted and reads back unchanged.
     `intsFit` is the further recorded finding about attribute values. -/
-theorem c08_roundtrip_partial (s : EventSnapshot) (hc : s.collectable = true) (WellFormedText : s.textOk = true)
+theorem c08_roundtrip_partial (s : EventSnapshot) (Collectable : s.collectable = true) (WellFormedText : s.textOk = true)
     (IntsFitInt64 : s.intsFit = true) :
     ∃ m, convertSnapshot s = some m ∧ projectSnapshot m = s := by
-  refine ⟨convertSnapshotRaw s, ?_, project_snapshot hc⟩
-  simp [convertSnapshot, accepts_snapshot hc WellFormedText IntsFitInt64]
+  refine ⟨convertSnapshotRaw s, ?_, project_snapshot Collectable⟩
+  simp [convertSnapshot, accepts_snapshot Collectable WellFormedText IntsFitInt64]
 
 /-- **total** — such a snapshot is never dropped -/
-theorem c08_total_partial (s : EventSnapshot) (hc : s.collectable = true) (WellFormedText : s.textOk = true)
+theorem c08_total_partial (s : EventSnapshot) (Collectable : s.collectable = true) (WellFormedText : s.textOk = true)
     (IntsFitInt64 : s.intsFit = true) :
     convertSnapshot s ≠ none := by
-  obtain ⟨m, hm, _⟩ := c08_roundtrip_partial s hc WellFormedText IntsFitInt64
+  obtain ⟨m, hm, _⟩ := c08_roundtrip_partial s Collectable WellFormedText IntsFitInt64
   simp [hm]
 
 /-- a snapshot used by the witnesses: one attribute `k = v`, everything else empty -/
